@@ -60,8 +60,9 @@ def run(facts, rep, tier):
             rep.add(Finding("R01.1", site,
                             "possible panic: %s not provably safe in %d of %d contexts reaching it (e.g. context '%s', operands %s)"
                             % (s["kind"], s["bad"], s["n"], s["ctx"], s["ops"]), s["loc"], {"context": s["ctx"], "operands": s["ops"]}))
-    rep.instances("R01.1", len(sites), floor=150, what="distinct obligation sites reached (Assert terminators + panicking calls)")
+    rep.instances("R01.1", len(sites), floor=120, what="distinct obligation sites reached (Assert terminators + panicking calls)")
     # definite panics, unmodelled callees, interpreter limits
+    e2_broken = []
     for r in results:
         if r.diverged and "panic" in r.diverged:
             bad = [o["site"] for o in r.obligations if not o["ok"]]
@@ -71,7 +72,7 @@ def run(facts, rep, tier):
             rep.add(Finding("R01.1", "analysis lost the frame : %s" % r.diverged.split("(")[0].strip(),
                             "context '%s': %s - the obligations behind it cannot be discharged" % (r.ctx["label"], r.diverged[:200]), None))
         if r.diverged and "E2 broken" in r.diverged:
-            raise Broken("E2 could not analyse context %s: %s" % (r.ctx["label"], r.diverged))
+            e2_broken.append("E2 could not analyse context %s: %s" % (r.ctx["label"], r.diverged))
         for w in r.warnings:
             if w[0] == "unmodelled":
                 rep.add(Finding("R01.1", "unmodelled callee : %s" % w[1],
@@ -89,6 +90,10 @@ def run(facts, rep, tier):
                     "accepted": not r.diverged})
     _termination(facts, rep)
     _eof(facts, rep)
+    if e2_broken and not rep.findings:
+        raise Broken(e2_broken[0])
+    for m in sorted(set(x.split(": ", 1)[-1] for x in e2_broken))[:3]:
+        rep.add(Finding("R01.1", "analysis limit : %s" % m.split(" at ")[-1][:80], "the abstract interpreter gave up (%s): the obligations behind it are not discharged" % m, None))
     rep.assumptions += [
         "stdout closed (EPIPE makes print! panic), out-of-memory on huge lines and -D/-l file-system failures are environment exits, not decided",
         "release profile: the same MIR without overflow asserts; a wrapping operation there is the same site flagged here",
@@ -251,6 +256,8 @@ def _termination(facts, rep):
                         ok = True
                 else:
                     why = "iterates %s (not a known finite source)" % ty.strip()[:80]
+            if not ok and _counted_loop(b, cfg, du, h, blks):
+                ok = True
             if n in tcp and not ok:
                 # the reconnect loop is the one permitted non-terminating loop; it must be unreachable without --tcp (C18)
                 rep.oblige(True, ("loop", n, "tcp"))
@@ -268,6 +275,56 @@ def _termination(facts, rep):
         rep.oblige(ok, "tcp dispatch")
         if not ok:
             rep.add(Finding("R01.2", "%s : TCP loop not guarded by tcp.is_empty()" % r, "the endless reconnect loop is not confined to the --tcp source", b.loc()))
+
+
+def _counted_loop(b, cfg, du, h, blks):
+    """`while i < N { ...; i += k }` (or the decrementing mirror): an exit decision compares a local that every cycle
+    moves by a positive constant towards a loop-invariant bound, and nothing else in the loop writes that local."""
+    from ..mirq import expr, operand_place
+    blks = set(blks)
+    backs = [a for a, hh in cfg.back_edges() if hh == h]
+    for bi in sorted(blks):
+        t = b.blocks[bi]["term"]
+        if t["k"] != "switch":
+            continue
+        succ = [x for _, x in t["targets"]] + [t["otherwise"]]
+        if all(x in blks for x in succ):
+            continue                      # not an exit decision
+        if not all(cfg.dominates(bi, a) for a in backs):
+            continue                      # the test is not on every cycle
+        e = expr(du, t["discr"])
+        if not (isinstance(e, tuple) and e[0] == "bin" and e[1] in ("Lt", "Le", "Gt", "Ge", "Ne")):
+            continue
+        for side, other, up_ops in ((e[2], e[3], ("Lt", "Le", "Ne")), (e[3], e[2], ("Gt", "Ge", "Ne"))):
+            if not (isinstance(side, tuple) and side[0] == "multi" and not side[2]):
+                continue
+            L = side[1]
+            # the bound must be loop-invariant: a constant, an argument, or a local not written inside the loop
+            if other[0] == "multi" and any(d[1] in blks for d in du.defs.get(other[1], [])):
+                continue
+            if other[0] not in ("const", "arg", "multi", "call", "path", "cast"):
+                continue
+            inside = [d for d in du.defs.get(L, []) if d[1] in blks]
+            if len(inside) != 1 or inside[0][0] != "stmt":
+                continue
+            kind, dbb, si, node = inside[0]
+            if node["place"]["proj"] or node["rv"]["k"] != "use":
+                continue
+            ie = expr(du, node["rv"]["x"])
+            if ie[0] == "path":
+                ie = ie[1]
+            if not (ie[0] == "bin" and ie[2] == ("multi", L, ()) and ie[3][0] == "const" and isinstance(ie[3][1], int) and ie[3][1] > 0):
+                continue
+            step_up = ie[1] in ("Add", "AddWithOverflow")
+            step_down = ie[1] in ("Sub", "SubWithOverflow")
+            going_up = e[1] in up_ops
+            if e[1] == "Ne" and ie[3][1] != 1:
+                continue
+            if not ((step_up and going_up) or (step_down and (not going_up or e[1] == "Ne"))):
+                continue
+            if all(cfg.dominates(dbb, a) for a in backs):
+                return True
+    return False
 
 
 def _eof(facts, rep):
